@@ -428,6 +428,10 @@ func rpcHistory(c *Ctx, id int) {
 	if id%3 == 0 {
 		rpcManyUnreceived(c, id)
 	}
+	if id%6 == 0 {
+		// every paged getter of every registered service on a ledger whose collections span several pages (s_rpc_pagers.go)
+		rpcPagerHistory(c, id)
+	}
 }
 
 // rpcManyUnreceived: an address with more pending sends than the unreceived query window (500), one of which is already
